@@ -595,8 +595,14 @@ pub fn check_tasks(prog: &NetProgram, res: &NetResult, prop: &str, info: &mut Ru
             }
         }
         let max_recv = recv_per.values().copied().max().unwrap_or(0);
+        let mut index: BTreeMap<(u16, usize, usize), Vec<usize>> = BTreeMap::new();
+        for (gi, g) in got.iter().enumerate() {
+            index.entry((g.5, g.0, g.1)).or_default().push(gi);
+        }
         for (inc, _end, e) in &expect {
-            let g = got.iter().find(|g| g.5 == *inc && g.0 == e.task && g.1 == e.step && (e.val.is_none() || e.codes.contains(&g.3)));
+            let g = index
+                .get(&(*inc, e.task, e.step))
+                .and_then(|v| v.iter().map(|gi| &got[*gi]).find(|g| e.val.is_none() || e.codes.contains(&g.3)));
             match g {
                 None => {
                     if limit_stopped {
